@@ -274,7 +274,7 @@ static void battery(hwloc_topology_t t, const char *caseid, unsigned long xflags
     /* F72 (open): the importer keeps whatever type the root <object> has; with a NUMANode (memory) root
      * hwloc_topology_export_synthetic() aborts in hwloc_check_memory_symmetric (topology-synthetic.c:1547, assert(node)).
      * Exact predicate on the LOADED topology: root is not a Machine -> synthetic export skipped unless VERIF_INCLUDE_F72=1. */
-    /* memcache-leaf (open; a crash consequence of the known class F05w = the importer has no validity gate, here: a MemCache whose
+    /* memcache-leaf (F77, fixed by ba284ff, exercised on every such topology now; it was a crash consequence of the known class F05w = the importer has no validity gate, here: a MemCache whose
      * nodeset is not that of NUMA nodes below it; found while widening C06 for the distances-list class, corpus/xmlload/
      * open-memcache-leaf.B.xml): the importer accepts a memory child chain that does not end in a NUMANode (e.g. a childless
      * <object type="MemCache"/>, filters KEEP_ALL); hwloc_topology_export_synthetic() then aborts in
@@ -292,7 +292,7 @@ static void battery(hwloc_topology_t t, const char *caseid, unsigned long xflags
         }
     }
     if (hwloc_get_root_obj(t)->type != HWLOC_OBJ_MACHINE && 0 /* F72 fixed in /repo */) n_f72++;
-    else if (mcleaf && !env_on("VERIF_INCLUDE_MEMCACHE_LEAF") && !env_on("VERIF_INCLUDE_F05W")) n_mcleaf++;
+    else if (mcleaf && 0 /* F77 fixed in /repo (ba284ff): the export returns -1/EINVAL */) n_mcleaf++;
     else {
     int r = hwloc_topology_export_synthetic(t, sb, sizeof sb, 0); if (r >= 0) sink += strlen(sb);
     r = hwloc_topology_export_synthetic(t, sb, sizeof sb, HWLOC_TOPOLOGY_EXPORT_SYNTHETIC_FLAG_NO_EXTENDED_TYPES | HWLOC_TOPOLOGY_EXPORT_SYNTHETIC_FLAG_NO_ATTRS | HWLOC_TOPOLOGY_EXPORT_SYNTHETIC_FLAG_IGNORE_MEMORY);
